@@ -262,7 +262,14 @@ var jsetPaths = []string{"a", "b", "a.b", "n.m", "name", "properties.tag", "prop
 func KeyspaceCmd(t *rapid.T, ns Names) []string {
 	k := func() string { return pick(t, "key", ns.Keys) }
 	id := func() string { return pick(t, "id", ns.IDs) }
-	fn := func() string { return pick(t, "field", ns.Fields) }
+	fn := func() string {
+		f := pick(t, "field", ns.Fields)
+		// names are stored trimmed: writers and readers may both pad them
+		if rapid.IntRange(0, 11).Draw(t, "padfield") == 5 {
+			f = " " + f + "\t"
+		}
+		return f
+	}
 	switch rapid.IntRange(0, 41).Draw(t, "cmd") {
 	case 0, 1, 2, 3, 4, 5, 6, 7:
 		args := []string{"SET", k(), id()}
